@@ -1,13 +1,54 @@
 """C01 — see DESIGN.md section 5."""
+import json
+import random
+import common as C
+import positions as P
 from props import boardprop
-
 FIELDS = ("legal.set","check.white","check.black","attacked.white","attacked.black","check.after","pseudo.count","move-accepted","spec.legal_set","spec.nodup","spec.check_white","spec.check_black","spec.flags","spec.wf")
 PREFIXES = ()
 HAS_PROOFS = True
 
 
 def run(ctx):
-    return boardprop.run(ctx, "C01", FIELDS, PREFIXES, "legal moves / check status differ from the model (which agrees with the rules spec)", has_proofs=HAS_PROOFS)
+    res = boardprop.run(ctx, "C01", FIELDS, PREFIXES, "legal moves / check status differ from the model (which agrees with the rules spec)", has_proofs=HAS_PROOFS)
+    if res["coverage"].get("evaluations", 0) == 0:
+        return res
+    # ---- what the engine says about a position may not depend on which position it was asked about before (engine alone): every
+    # question (check status, legal moves, number of pseudo-legal moves, attacked squares, evaluation, keys, a depth-2 search) about Y
+    # on a fresh thread vs the same question about Y right after a question about X on the same thread.  X, Y: the committed
+    # key-collision pairs in both orders (a memo keyed by the position key alone — seeded change r6C01 — answers for the wrong position
+    # exactly there) and random pairs of corpus / bench positions.
+    rng = random.Random(ctx["seed"] + 101)
+    pool = P.corpus() + P.bench_fens()
+    pairs = []
+    for a, b in P.collision_pairs():
+        pairs += [(a, b), (b, a)]
+    for _ in range(60 if ctx["tier"] == "quick" else 1500):
+        a, b = rng.choice(pool), rng.choice(pool)
+        if a != b:
+            pairs.append((a, b))
+    rc, so, se = C.driver(["pairs"], "".join("%s | %s\n" % p for p in pairs), timeout=1800)
+    lines = [l[6:] for l in so.splitlines() if l.startswith("PAIRS ")]
+    if rc != 0 or len(lines) != len(pairs):
+        rp = C.write_replay("C01", {"broken": "query-independence leg (driver `pairs`) did not complete", "stderr": (se or "")[-600:]})
+        res["violations"].append({"replay": rp, "no_input": True})
+    else:
+        nb = 0
+        for (x, y), l in zip(pairs, lines):
+            try:
+                bad = json.loads(l)
+            except ValueError:
+                bad = [{"q": "unparsable driver output", "raw": l[:200]}]
+            if bad:
+                nb += 1
+                if nb <= 3:
+                    rp = C.write_replay("C01", {"kind": "the engine's answer about a position depends on which position it was asked about before (one of the two answers is wrong)",
+                                                "asked_first_about": x, "then_about": y, "differences": bad[:6],
+                                                "replay_cmd": "printf '%s | %s\\n' | %s verif pairs | grep PAIRS" % (x, y, C.ENGINE)})
+                    res["violations"].append({"replay": rp})
+        res["coverage"]["query_independence_pairs"] = len(pairs)
+        res["coverage"]["query_independence_failures"] = nb
+    return res
 
 
 def replay(ctx, payload):
